@@ -282,7 +282,10 @@ FORWARDED = [
 ]
 
 
-def c19_misc_program():
+def c19_misc_program(only=None):
+    """all pass-through / nesting / forwarding cases in one program, or (only=(tag, k)) a single case"""
+    def want(tag, k):
+        return only is None or only == (tag, k) or (only == ("P", k) and tag == "Q")
     lines = ["#![allow(unused)]", "use ruint::{uint, Uint, Bits};",
              "fn ty<T>(_: &T) -> &'static str { std::any::type_name::<T>() }",
              "fn id<T>(x: T) -> T { x }",
@@ -293,12 +296,16 @@ def c19_misc_program():
              "macro_rules! fwd_two { ($a:expr, $b:expr) => { uint! { $a ^ $b } }; }",
              "fn main() {"]
     for k, (frag, _) in enumerate(FORWARDED):
-        lines.append(f"  {{ let a = {frag}; println!(\"F{k} {{}}\", show(a)); }}")
+        if want("F", k):
+            lines.append(f"  {{ let a = {frag}; println!(\"F{k} {{}}\", show(a)); }}")
     for k, tok in enumerate(PASS_THROUGH):
+        if not want("P", k):
+            continue
         lines.append(f"  {{ let a = uint! {{ {tok} }}; let b = {tok}; println!(\"P{k} {{}} {{}}\", format!(\"{{:?}}\", a) == format!(\"{{:?}}\", b), ty(&a) == ty(&b)); }}")
         lines.append(f"  {{ let a = uint! {{ ((({{ [{tok}] }}))) }}; let b = ((({{ [{tok}] }}))); println!(\"Q{k} {{}} {{}}\", format!(\"{{:?}}\", a) == format!(\"{{:?}}\", b), ty(&a) == ty(&b)); }}")
     for k, (frag, _) in enumerate(NESTED_LITS):
-        lines.append(f"  {{ let a = uint! {{ {frag} }}; println!(\"N{k} {{}}\", show(a)); }}")
+        if want("N", k):
+            lines.append(f"  {{ let a = uint! {{ {frag} }}; println!(\"N{k} {{}}\", show(a)); }}")
     lines.append("}")
     return "\n".join(lines)
 
@@ -322,7 +329,18 @@ def c19(tier, seed):
     rc, err = rustc(src, src[:-3])
     nmisc = 2 * len(PASS_THROUGH) + len(NESTED_LITS) + len(FORWARDED)
     if rc != 0:
-        viol.append(("pass-through", "pass-through / nesting program", "rejected at compile time", "compiles", err.strip()[:600]))
+        # the combined program does not compile: compile every case on its own to attribute the rejection
+        def one(case):
+            kind, text, body = case
+            one_src = os.path.join(d, "one_" + hashlib.sha1(text.encode()).hexdigest()[:10] + ".rs")
+            open(one_src, "w").write(c19_misc_program(only=body))
+            r1, e1 = rustc(one_src, one_src[:-3])
+            return None if r1 == 0 else (kind, text, "rejected at compile time", "compiles (and keeps value and type)", (e1.strip().splitlines() or [""])[0][:300])
+        cases = [("nesting", f + " (forwarded through a macro_rules fragment)", ("F", k)) for k, (f, _) in enumerate(FORWARDED)]
+        cases += [("pass-through", t, ("P", k)) for k, t in enumerate(PASS_THROUGH)] + [("nesting", f, ("N", k)) for k, (f, _) in enumerate(NESTED_LITS)]
+        with cf.ThreadPoolExecutor(os.cpu_count() or 8) as ex:
+            bad = [x for x in ex.map(one, cases) if x]
+        viol += bad if bad else [("pass-through", "pass-through / nesting program", "rejected at compile time", "compiles", err.strip()[:600])]
     else:
         _, out, _ = run_bin(src[:-3])
         seen = {l.split(" ", 1)[0]: l.split(" ", 1)[1] for l in out.splitlines() if " " in l}
